@@ -74,7 +74,7 @@ fn roundtrip_one(acc: &mut Acc, info: &ModuleInfo, ctx: &Value, idx: u64) {
 }
 
 fn roundtrip(tier: Tier, seed: u64) -> Acc {
-  let n = tier.pick(160000usize, 4800000);
+  let n = tier.pick(160000usize, 19200000);
   let chunk = 500;
   let mut acc = par_run(n / chunk, |ci, acc| {
     let mut rng = Rng::new(seed).fork(ci as u64 ^ 0xC13);
@@ -369,7 +369,7 @@ fn graph_view(g: &ModuleGraph) -> Value {
 }
 
 fn shortcut(tier: Tier, seed: u64) -> Acc {
-  let n = tier.pick(4800, 160000);
+  let n = tier.pick(4800, 640000);
   par_run(n, |i, acc| {
     let mut rng = Rng::new(seed).fork(i as u64 ^ 0x5C);
     let mut plain = gen_reg_world(&mut rng);
